@@ -35,8 +35,16 @@ def gen_config(rng):
         shape = ["s", rng.choice([1, 2, 4, 5])]
     elif k < 0.85:
         shape = ["array", rng.choice([1, 2, 3]), rng.choice([1, 2, 3, 4])]
-    else:
+    elif k < 0.93:
         shape = ["struct", [[f"f{j}", rng.choice([1, 2, 3]), rng.random() < 0.3] for j in range(rng.randrange(1, 4))]]
+    else:
+        # a data.Struct class with field defaults: rows that are not initialised hold the defaults
+        fl = []
+        for j in range(rng.randrange(1, 4)):
+            fw, fs = rng.choice([1, 2, 3]), rng.random() < 0.4
+            dv = rng.randrange(-(1 << (fw - 1)), 1 << (fw - 1)) if fs else rng.randrange(0, 1 << fw)
+            fl.append([f"f{j}", fw, fs, dv])
+        shape = ["sclass", fl]
     depth = rng.choice([0, 1, 2, 2, 3, 4, 5, 8])
     w = width_of(shape)
     doms = {"d0": rng.choice(["pos", "pos", "neg"])}
@@ -71,7 +79,21 @@ def width_of(shape):
         return shape[1]
     if shape[0] == "array":
         return shape[1] * shape[2]
-    return sum(w for _, w, _ in shape[1])
+    return sum(f[1] for f in shape[1])
+
+
+def default_row(shape):
+    """Bits of a row that the user did not initialise."""
+    if shape[0] != "sclass":
+        return 0
+    v = pos = 0
+    for n, w, s, dv in shape[1]:
+        v |= (dv & mask(w)) << pos
+        pos += w
+    return v
+
+
+_sclass = {}
 
 
 def real_shape(shape):
@@ -83,6 +105,14 @@ def real_shape(shape):
         return signed(shape[1])
     if shape[0] == "array":
         return data.ArrayLayout(unsigned(shape[1]), shape[2])
+    if shape[0] == "sclass":
+        key = repr(shape[1])
+        if key not in _sclass:
+            ns = {"__annotations__": {n: (signed(w) if s else unsigned(w)) for n, w, s, dv in shape[1]}}
+            for n, w, s, dv in shape[1]:
+                ns[n] = dv
+            _sclass[key] = type(f"Row{len(_sclass)}", (data.Struct,), ns)
+        return _sclass[key]
     return data.StructLayout({n: (signed(w) if s else unsigned(w)) for n, w, s in shape[1]})
 
 
@@ -96,7 +126,8 @@ def real_init(shape, bits):
         return [(bits >> (i * shape[1])) & mask(shape[1]) for i in range(shape[2])]
     out = {}
     pos = 0
-    for n, w, s in shape[1]:
+    for f in shape[1]:
+        n, w, s = f[0], f[1], f[2]
         out[n] = norm((bits >> pos) & mask(w), w, s)
         pos += w
     return out
@@ -166,13 +197,14 @@ class MemRef:
         self.cfg = cfg
         self.w = width_of(cfg["shape"])
         full = mask(self.w)
-        self.rows = [[(cfg["init"][i] if i < len(cfg["init"]) else 0) & full, 0] for i in range(cfg["depth"])]
+        self.rows = [[(cfg["init"][i] if i < len(cfg["init"]) else default_row(cfg["shape"])) & full, 0] for i in range(cfg["depth"])]
         self.wp = [{"addr": 0, "data": 0, "en": 0} for _ in cfg["wports"]]
         self.rp = [{"addr": 0, "en": 1 if p["domain"] != "comb" else 1, "data": [0, 0]} for p in cfg["rports"]]
         # documented: read port data is initially zero?  Unspecified before the first read: poison
         for r, p in zip(self.rp, cfg["rports"]):
             if p["domain"] != "comb":
-                r["data"] = [0, 0]      # the data signal's own initial value is 0
+                # the data signal's own initial value: the shape's default (0 for plain shapes)
+                r["data"] = [default_row(cfg["shape"]) & full, 0]
         self.clk = {d: 0 for d in cfg["domains"]}
         self.rst = {d: 0 for d in cfg["domains"]}
 
